@@ -157,7 +157,10 @@ fn out_spec(i: u8) -> OutSpec {
         2 => OutSpec { inline_datum: Some(datum_dom(1)), script: Some((0, native_script_ok())), ..base(0, 3_000_000) },
         3 => OutSpec { assets: vec![(0, 1, 1)], script: Some((2, plutus_bytes())), ..base(0, 1_500_000) },
         4 => OutSpec { inline_datum: Some(vec![0xff]), ..base(0, 1_000_000) }, // malformed inline datum
-        _ => OutSpec { assets: vec![(0, 0, 0)], ..base(0, 1_000_000) },         // asset with quantity 0
+        5 => OutSpec { assets: vec![(0, 0, 0)], ..base(0, 1_000_000) },         // asset with quantity 0
+        // one output per reference-script language (the builder converts each kind in its own arm)
+        6 => OutSpec { script: Some((1, plutus_bytes())), ..base(1, 1_200_000) },
+        _ => OutSpec { script: Some((3, plutus_bytes())), ..base(0, 1_300_000) },
     }
 }
 
@@ -1128,8 +1131,8 @@ pub fn wide_alphabet() -> Vec<Ev> {
         Input(0), Input(1), RemoveInput(0), RemoveInput(1),
         RefInput(0), RefInput(1), RemoveRefInput(0),
         CollInput(0), CollInput(1), RemoveCollInput(0),
-        Output(0), Output(1), Output(2), Output(3), Output(4), Output(5), RemoveOutput(0), RemoveOutput(1),
-        CollOutput(0), CollOutput(1), ClearCollOutput,
+        Output(0), Output(1), Output(2), Output(3), Output(4), Output(5), Output(6), Output(7), RemoveOutput(0), RemoveOutput(1),
+        CollOutput(0), CollOutput(1), CollOutput(3), CollOutput(7), ClearCollOutput,
         Fee(7), ClearFee,
     ];
     for p in 0..2 {
